@@ -422,7 +422,14 @@ fn build_file(fc: &FileCfg, pool: &[(String, Vec<String>)], all_shapes: &[TreeSp
     let options: Vec<String> = {
         let o = ["ALPHA=0.37", "GAMMA=2", "LN_GAIN=1"];
         let perm = [[0, 1, 2], [0, 2, 1], [1, 0, 2], [1, 2, 0], [2, 0, 1], [2, 1, 0]][fc.optorder as usize % 6];
-        perm.iter().map(|i| o[*i].to_string()).collect()
+        let mut v: Vec<String> = perm.iter().map(|i| o[*i].to_string()).collect();
+        // optorder 6..: entries the engine does not know (a bare token without '=', an unknown key) at each position;
+        // they are skipped, whatever stands behind them still counts
+        if fc.optorder >= 6 {
+            let extra = if fc.optorder % 2 == 0 { "MEL_CEPSTRUM" } else { "FOO=1" };
+            v.insert(((fc.optorder - 6) / 2) as usize % 4, extra.to_string());
+        }
+        v
     };
     let states: Vec<usize> = (2..2 + fc.nstate).collect();
     let mut streams = vec![
@@ -526,7 +533,7 @@ fn construct_label(path: &[(String, bool)], questions: &HashMap<String, Vec<Stri
 
 pub fn run(tier: Tier) -> i32 {
     let rep = Report::new("C04", tier, "model_checking");
-    rep.set_rule("SCOPE: (a) bundled voice (also re-packed: data blocks in reverse order and/or separated by 0xFF filler): every model (duration, 3 streams x 5 states, 2 GV) x every label of the label space (corpus + one-group recombinations of the cover set + every distinct corpus value of every field group in 2-4 base labels + typed sweeps of every numeric field over 0..N + phoneme symbols from the voice's own patterns) vs an independent reader of the file + HTS wildcard matcher, bit-exact on means/variances/voicing weight and equal on tree/PDF index; (b) every distinct question of the bundled voice x the label space: crate matcher vs wildcard oracle; (c) generated files: all binary tree shapes with <= 3 internal nodes x 4 leaf numberings (in order, reversed, permuted, tied: one PDF reached by several branches) x quoted/unquoted x question triples from a pool of real questions (incl. the regex-fallback ones) x layout deviations (states, streams, vector length, window set, order in which the state trees are listed, numbering and listing order of the internal nodes: sequential, non-contiguous ids, ids counted backwards, yes-subtree rows first; the six orders of the spectrum options; stream keys MGC/F0/BAP instead of MCP/LF0/LPF; header keys in reverse order, data blocks in reverse order and/or separated by filler bytes), plus one large file (a 300-node tree with 301 PDFs, 300 questions, one question with 300 patterns), checked against both the independent reader and the generator's spec (sentinel floats), on a stride after a Serialize/Deserialize round trip of the loaded voice; (d) metadata, options, windows, engine defaults vs the header; distinct = (file, model, state, label); non-trivial = lookups through a tree with more than one leaf");
+    rep.set_rule("SCOPE: (a) bundled voice (also re-packed: data blocks in reverse order and/or separated by 0xFF filler): every model (duration, 3 streams x 5 states, 2 GV) x every label of the label space (corpus + one-group recombinations of the cover set + every distinct corpus value of every field group in 2-4 base labels + typed sweeps of every numeric field over 0..N + phoneme symbols from the voice's own patterns) vs an independent reader of the file + HTS wildcard matcher, bit-exact on means/variances/voicing weight and equal on tree/PDF index; (b) every distinct question of the bundled voice x the label space: crate matcher vs wildcard oracle; (c) generated files: all binary tree shapes with <= 3 internal nodes x 4 leaf numberings (in order, reversed, permuted, tied: one PDF reached by several branches) x quoted/unquoted x question triples from a pool of real questions (incl. the regex-fallback ones) x layout deviations (states, streams, vector length, window set, order in which the state trees are listed, numbering and listing order of the internal nodes: sequential, non-contiguous ids, ids counted backwards, yes-subtree rows first; the six orders of the spectrum options, also with a bare token or an unknown key inserted at each position; stream keys MGC/F0/BAP instead of MCP/LF0/LPF; header keys in reverse order, data blocks in reverse order and/or separated by filler bytes), plus one large file (a 300-node tree with 301 PDFs, 300 questions, one question with 300 patterns), checked against both the independent reader and the generator's spec (sentinel floats), on a stride after a Serialize/Deserialize round trip of the loaded voice; (d) metadata, options, windows, engine defaults vs the header; distinct = (file, model, state, label); non-trivial = lookups through a tree with more than one leaf");
     rep.assume("labels limited to the stated label space; generated trees have at most 3 internal nodes; the label text matched by the oracle is the label's own serialisation");
     // ---------- question pool from the bundled voice ----------
     let v0b = v0_bytes();
@@ -766,7 +773,7 @@ pub fn run(tier: Tier) -> i32 {
                         files.push(FileCfg { shape, assign, quoted, qtriple: *t, nstate: l.0, ns: l.1, vlen: l.2, wset: l.3, ..default.clone() });
                         // the same file with the spectrum options in each other order, and with other stream keys
                         if ti == 0 && li == 0 && assign == 0 {
-                            for optorder in 1..6u8 {
+                            for optorder in 1..14u8 {
                                 files.push(FileCfg { shape, assign, quoted, qtriple: *t, nstate: l.0, ns: l.1, vlen: l.2, wset: l.3, optorder, names: optorder % 2, ..default.clone() });
                             }
                         }
